@@ -150,7 +150,7 @@ def verdict(ctx: Ctx, proof: dict, meta: dict) -> int:
         exit_code = 1
 
     # a broken correspondence or proof obligation without a failing input
-    explained = len(ctx.failures) > 0
+    explained = violations > 0   # an unlisted failing input was exhibited (known findings explain nothing)
     if ctx.disagreements and not explained:
         d = ctx.disagreements[0]
         path = write_replay(ctx.prop, ctx.seed, ctx.tier, 'correspondence-broken',
